@@ -122,6 +122,7 @@ func main() {
 	for i := 0; i < n; i++ {
 		items = append(items, e.history(e.gen(i%2 == 0)))
 	}
+	e.observations()
 	lib.WriteCases("Cases_C19.v", []string{"model.M_Cache", "model.M_Ibc", "model.M_IbcCorr"}, "hist", items, "hist_mismatch")
 	e.rep.Write()
 }
@@ -653,7 +654,10 @@ func (e *env) history(ops []opT) string {
 				case o.Denom == "fx":
 					pathDenom = fxtypes.DefaultDenom
 				case strings.HasPrefix(o.Denom, "alias"):
-					pathDenom = fmt.Sprintf("%s/%s/ua%d", port, ch, o.Chan)
+					// the voucher that left is the one of the token's own channel (over channel-1 the prefix match of
+					// BaseDenomToBridgeDenom also accepts the channel-11 voucher — observation history only)
+					ai := int(o.Denom[len(o.Denom)-1] - '0')
+					pathDenom = fmt.Sprintf("%s/%s/ua%d", port, e.chans[ai], ai)
 				default:
 					pathDenom = fmt.Sprintf("%s/%s/uo%d", port, ch, o.Chan)
 				}
@@ -912,3 +916,62 @@ func (e *env) replay(path string) {
 }
 
 var _ = ibcmwtypes.IntermediateSender
+
+// observations: behaviours seen around the middleware that are NOT violations of a clause of C19 (decided against the property
+// text in docs/C19.md). They are run on the real app on every check — monitors on, not part of the model comparison — and
+// reported as notes with the numbers observed.
+func (e *env) observations() {
+	c := e.c
+	note := func(f string, a ...interface{}) { e.rep.Notes = append(e.rep.Notes, "observation: "+fmt.Sprintf(f, a...)) }
+	failuresBefore := len(e.rep.Failures)
+
+	// (1) BaseDenomToBridgeDenom picks the voucher alias by strings.HasPrefix(trace path, "transfer/channel-N"): a send of the
+	// channel-11 token over channel-1 is accepted and leaves with the channel-11 voucher (escrowed, not burnt). C19's clauses
+	// still hold for it: refunded to the sender as ERC-20, exactly once, record removed (monitors of history()).
+	h := e.history([]opT{{Kind: "sendevm", Chan: 1, User: 0, Denom: "alias0", Amt: 44}, {Kind: "timeout", Chan: 1, Seq: 11},
+		{Kind: "timeoutraw", Chan: 1, Seq: 11}, {Kind: "sendevm", Chan: 1, User: 1, Denom: "alias0", Amt: 17}, {Kind: "ack", Chan: 1, Seq: 12, OK: true}})
+	note("ERC-20 of the channel-11 token sent over channel-1: accepted=%v (prefix match of the alias path); refunded as ERC-20 exactly once on timeout, record removed on success: %d monitor failures",
+		strings.Contains(h, "(SendFromEvm 1 0 (DAlias 0) 44, mk_obs 1 "), len(e.rep.Failures)-failuresBefore)
+
+	B, _ := c.Ctx.CacheContext()
+	user := e.users[2]
+	// (2) a voucher registered as its own pair coin: the receiver gets exactly the amount as ERC-20 (C19 holds); the bank supply
+	// of the voucher grows by TWICE the amount, the surplus sits in the transfer module account (a ledger matter: C04/C08)
+	{
+		v := e.own[0]
+		sup0 := c.App.BankKeeper.GetSupply(B, v.Base).Amount
+		mod0 := tok.Bank(c, B, authtypes.NewModuleAddress(transfertypes.ModuleName), v.Base)
+		erc0 := tok.BalanceOf(c, B, v.Erc20, user.Hex())
+		data := transfertypes.NewFungibleTokenPacketData("uo0", "50", remoteSender(0), user.Hex().Hex(), "")
+		ok, _ := tok.CoreRecv(c, B, tok.InPacket(900, "channel-7", port, e.chans[0], data), e.relayer)
+		note("inbound 50 of a voucher that is its own pair coin: ack success=%v, receiver ERC-20 +%s, voucher bank supply +%s, transfer module account +%s",
+			ok, new(big.Int).Sub(tok.BalanceOf(c, B, v.Erc20, user.Hex()), erc0), c.App.BankKeeper.GetSupply(B, v.Base).Amount.Sub(sup0),
+			tok.Bank(c, B, authtypes.NewModuleAddress(transfertypes.ModuleName), v.Base).Sub(mod0))
+	}
+	// (3) IntermediateSender hashes the packet's SOURCE channel (the remote chain's id): two counterparties that both call their
+	// end channel-7 give the same derived sender for the same sender string. No local account is impersonated (C19's clause).
+	{
+		var seen []common.Address
+		for i := 0; i < 2; i++ {
+			c.App.EvmKeeper.SetState(B, e.cCaller, common.Hash{}, nil)
+			data := transfertypes.NewFungibleTokenPacketData(fmt.Sprintf("uo%d", i), "5", remoteSender(0), user.Hex().Hex(), tok.MemoCall(c, e.cCaller.Hex(), nil, 0))
+			ok, _ := tok.CoreRecv(c, B, tok.InPacket(901+uint64(i), "channel-7", port, e.chans[i], data), e.relayer)
+			got := common.BytesToAddress(c.App.EvmKeeper.GetState(B, e.cCaller, common.Hash{}).Bytes())
+			if ok {
+				seen = append(seen, got)
+			}
+		}
+		if len(seen) == 2 {
+			_, local := e.local[seen[0]]
+			note("memo calls from the same sender string over two different local channels (%s, %s) whose remote ends are both channel-7 run as %s and %s (equal=%v); that address is a local account: %v",
+				e.chans[0], e.chans[1], seen[0].Hex(), seen[1].Hex(), seen[0] == seen[1], local)
+		}
+	}
+	// (4) a memo call needs an auth account at the derived sender; without one the packet is refused: nothing credited
+	{
+		pre := c.DumpAll(B)
+		data := transfertypes.NewFungibleTokenPacketData("uo0", "5", remoteSender(2), user.Hex().Hex(), tok.MemoCall(c, e.cCaller.Hex(), nil, 0))
+		ok, _ := tok.CoreRecv(c, B, tok.InPacket(903, "channel-7", port, e.chans[0], data), e.relayer)
+		note("memo call whose derived sender has no account yet: ack success=%v, state changed=%v", ok, len(lib.DiffDumps(pre, c.DumpAll(B))) > 0)
+	}
+}
